@@ -4,13 +4,16 @@ Line-protocol driver for the store snapshotting model (component `snapsm`), C04.
   reset                         → ok
   write <id>                    → ok
   noop                          → ok
-  snap <ok|notinvoked|failbefore|failafter>   → full | incremental | nowal | full-not-installed | incremental-not-installed
+  snap <ok|notinvoked|failbefore|failafter>   → full | incremental | nothing | nowal | full-not-installed | incremental-not-installed
+  snapbegin                     → full | incremental | nowal | busy          (FSM.Snapshot())
+  snapend <outcome>             → installed | not-installed | nopending      (Persist + Close / Release)
   load <content> / boot <content> / install <content>   → ok     content = ids comma-separated, `e` empty
   reap                          → ok
   restart                       → ok | corrupt
   db                            → content of the applied database
   state                         → staged=<n> snaps=<n> due=<full|incremental>
-`…old` variants of every command run the pre-fix code (snapold, bootold, installold).
+`cmd@0` / `cmd@1` run an older code version (see `lvl` in the model); plain commands the current one.
+`state` reports the snapshot store's DueNext (flag or empty store), not the store's mtime guard.
 -/
 import RqModel.Model.SnapSM
 namespace RqModel.SnapSMDrv
@@ -30,43 +33,50 @@ def outcomeTok (t : String) : Option Outcome :=
   if t == "ok" then some .ok else if t == "notinvoked" then some .notInvoked
   else if t == "failbefore" then some .failBefore else if t == "failafter" then some .failAfter else none
 
+/-- the code version the harness talks about: 2 = current source; `cmd@0`, `cmd@1` select older ones -/
+def curLvl : Nat := 2
+
+def splitLvl (t : String) : String × Nat :=
+  match t.splitOn "@" with
+  | [a, l] => (a, l.toNat?.getD curLvl)
+  | _ => (t, curLvl)
+
 def stepLine (d : DState) (line : String) : DState × String :=
-  let run (fixed : Bool) (op : Op) : DState × String :=
-    let (s', o) := step fixed d.s op
+  let run (lvl : Nat) (op : Op) : DState × String :=
+    let (s', o) := step lvl d.s op
     ({ s := s' }, o)
   match words line with
-  | ["reset"] => ({}, "ok")
-  | ["write", w] => match w.toNat? with
-    | some w => run true (.write w)
-    | none => (d, "bad-op")
-  | ["noop"] => run true .noop
-  | ["snap", o] => match outcomeTok o with
-    | some o => run true (.snapshot o)
-    | none => (d, "bad-op")
-  | ["snapold", o] => match outcomeTok o with
-    | some o => run false (.snapshot o)
-    | none => (d, "bad-op")
-  | ["load", c] => match contentTok c with
-    | some c => run true (.load c)
-    | none => (d, "bad-op")
-  | ["boot", c] => match contentTok c with
-    | some c => run true (.boot c)
-    | none => (d, "bad-op")
-  | ["bootold", c] => match contentTok c with
-    | some c => run false (.boot c)
-    | none => (d, "bad-op")
-  | ["install", c] => match contentTok c with
-    | some c => run true (.install c)
-    | none => (d, "bad-op")
-  | ["installold", c] => match contentTok c with
-    | some c => run false (.install c)
-    | none => (d, "bad-op")
-  | ["reap"] => run true .reap
-  | ["restart"] => run true .restart
-  | ["db"] => (d, showC d.s.db)
-  | ["state"] =>
-    (d, s!"staged={d.s.staged.length} snaps={d.s.snaps.length} due={if fullDue d.s then "full" else "incremental"}")
-  | _ => (d, "bad-op")
+  | [] => (d, "bad-op")
+  | cmd0 :: args =>
+    let (cmd, lvl) := splitLvl cmd0
+    match cmd, args with
+    | "reset", [] => ({}, "ok")
+    | "write", [w] => match w.toNat? with
+      | some w => run lvl (.write w)
+      | none => (d, "bad-op")
+    | "noop", [] => run lvl .noop
+    | "snap", [o] => match outcomeTok o with
+      | some o => run lvl (.snapshot o)
+      | none => (d, "bad-op")
+    | "snapbegin", [] => run lvl .snapBegin
+    | "snapend", [o] => match outcomeTok o with
+      | some o => run lvl (.snapEnd o)
+      | none => (d, "bad-op")
+    | "load", [c] => match contentTok c with
+      | some c => run lvl (.load c)
+      | none => (d, "bad-op")
+    | "boot", [c] => match contentTok c with
+      | some c => run lvl (.boot c)
+      | none => (d, "bad-op")
+    | "install", [c] => match contentTok c with
+      | some c => run lvl (.install c)
+      | none => (d, "bad-op")
+    | "reap", [] => run lvl .reap
+    | "restart", [] => run lvl .restart
+    | "db", [] => (d, showC d.s.db)
+    | "state", [] =>
+      (d, s!"staged={d.s.staged.length} snaps={d.s.snaps.length} due={if d.s.fullNeeded || d.s.snaps.isEmpty then "full" else "incremental"}")
+    | _, _ => (d, "bad-op")
 
 def step := stepLine
 
